@@ -317,7 +317,8 @@ class Cands:
         if isinstance(ap, A.ConfigFieldA):
             return ["__FIELDS__"]  # resolved against the chosen config
         if isinstance(ap, A.ProcA):
-            return list(self.env.get("SUBPROCS", []))
+            extra = list(self.env.get("X86", [])) if opname == "replace" else []
+            return list(self.env.get("SUBPROCS", [])) + extra
         if isinstance(ap, A.InstrStrA):
             return ["/* instr */"]
         return []
